@@ -55,6 +55,9 @@ MonSpec == MonInit /\ [][MonNext]_mvars
 
 \* a body was spawned (the invocation reached its select) although the state at its start decision was not Quiet
 MonStartOnlyWhenQuiet == \A i \in Invs : pc[i] = "select" => quiet[i]
+\* caller discipline (harness/fs): when a call of a prioritized caller (filesystem.Check) has returned, every
+\* prioritized task it began has been ended - otherwise the counter says "in progress" for ever
+MonCallersBalanced == last.act = "CallEnd" => active = 0
 \* bounded-wait verdicts of the driver
 \* every invocation returned once prioritized work had stopped (30 s)
 MonAllReturned == last.act # "Stuck"
